@@ -17,6 +17,15 @@ def change_funcs(ctx):
         if 'addNode' in calls and 'dropNode' in calls and 'reverse' in f.params:
             mut = f
     if mut is None:
+        # one of the two transport calls may be missing (that is what R-removed-excluded reports): the function that both adds to
+        # and discards from the voter set
+        for f in P.methods_of(R.S):
+            if f is R.init:
+                continue
+            kinds = set(a.node.func.attr for a in P.accesses(f) if a.attr == R.voters and a.kind == 'mutcall' and isinstance(a.node, ast.Call) and isinstance(a.node.func, ast.Attribute))
+            if 'add' in kinds and (kinds & {'discard', 'remove'}):
+                mut = f
+    if mut is None:
         raise AnalysisError('membership mutation function (adds/drops a voter, takes `reverse`) not found')
     gate = None
     for c in P.calls_in(R.queue_drain):
